@@ -372,7 +372,20 @@ func (m *Model) casScanCell(v ssa.Value, fn *ssa.Function) (bool, string) {
 				return false, why
 			}
 		}
+		// a pointer to a field of a row struct that a read helper returned (`&prev.cas`)
+		if fa, ok := v.(*ssa.FieldAddr); ok {
+			if ok2, why := m.fieldOfHelperRowIsCas(fa); ok2 {
+				return true, ""
+			} else if why != "" {
+				return false, why
+			}
+		}
 		return m.casViaTerms(v, fn, "not a load of a scanned cell")
+	}
+	if fa, ok := ld.X.(*ssa.FieldAddr); ok {
+		if ok2, _ := m.fieldOfHelperRowIsCas(fa); ok2 {
+			return true, ""
+		}
 	}
 	if ok, why := m.cellIsCasScan(ld.X, fn); !ok {
 		return m.casViaTerms(v, fn, why)
@@ -2135,6 +2148,54 @@ func (m *Model) ruleRMW(r *Results) {
 			}
 		}
 	}
+	// a return that leaves a (callback-free) read-modify-write loop without having written
+	// reports a failure: "nothing written" is never reported as success
+	for _, lp := range loops {
+		fn := lp.Fn
+		hasCb := false
+		m.eachCall(fn, func(c ssa.CallInstruction) {
+			if c.Common().StaticCallee() == nil && !c.Common().IsInvoke() {
+				if _, isBuiltin := c.Common().Value.(*ssa.Builtin); !isBuiltin {
+					hasCb = true
+				}
+			}
+		})
+		if hasCb {
+			continue
+		}
+		c := newCut()
+		nw := 0
+		for _, w := range lp.Writes {
+			site := w
+			if v, ok := lp.Via[w]; ok {
+				site = v
+			}
+			if site.Parent() == fn {
+				c.cutBlock(site.Block())
+				nw++
+			}
+		}
+		if nw == 0 {
+			continue
+		}
+		reach := entryReach(fn, c)
+		bad := ""
+		for _, ret := range returnsOf(fn) {
+			if !reach[ret.Block().Index] {
+				continue
+			}
+			if lp.Outer != nil && lp.Retry < len(ret.Results) {
+				if cst, ok := ret.Results[lp.Retry].(*ssa.Const); ok && cst.Value != nil && constant.BoolVal(cst.Value) {
+					continue
+				}
+			}
+			if m.returnFails(ret, 0) {
+				continue
+			}
+			bad = m.instrPos(ret)
+		}
+		r.check(bad == "", rule, m.declName(lp.nameFn())+" / leaving without the write-back reports a failure", m.pos(fn.Pos()), "every return that does not pass the write-back carries an error", "the read-modify-write loop can return at "+bad+" without having written, with an error that may be nil: the caller is told the change was made (CAS 0, no error) although the document is as it was")
+	}
 	// body written back must be either the callback's body or the body that was read
 	for _, lp := range loops {
 		fn := lp.Fn
@@ -3528,4 +3589,288 @@ func (m *Model) makesNamedError(v ssa.Value, name string, depth int) bool {
 		return len(rets) > 0
 	}
 	return false
+}
+
+// returnFails: the return certainly carries an error: by itself, through an error constructor
+// of the package, or because it is reached only where a result of the same helper call (or a
+// predicate over the error) says that the error is there.
+func (m *Model) returnFails(ret *ssa.Return, depth int) bool {
+	if m.isFailureReturn(ret) || m.mustBeFailureReturn(ret) {
+		return true
+	}
+	if len(ret.Results) == 0 || depth > 3 {
+		return false
+	}
+	fn := ret.Parent()
+	errV := stripConv(ret.Results[len(ret.Results)-1])
+	if !isErrorType(errV.Type()) {
+		return false
+	}
+	// an error constructor: a package function every return of which fails
+	if call, ok := errV.(*ssa.Call); ok {
+		if f := call.Common().StaticCallee(); f != nil && m.inPkg(f) && len(f.Blocks) > 0 && f.Signature.Results().Len() == 1 {
+			all := true
+			for _, r2 := range returnsOf(f) {
+				if !m.returnFails(r2, depth+1) {
+					all = false
+				}
+			}
+			if all {
+				return true
+			}
+		}
+	}
+	behind := func(iff *ssa.If, s *ssa.BasicBlock) bool {
+		// the return is reached only through the edge iff -> s
+		c := newCut()
+		c.cutEdge(iff.Block(), s)
+		return !entryReach(fn, c)[ret.Block().Index]
+	}
+	for _, iff := range allIfs(fn) {
+		cd := condOf(iff)
+		// (1) a predicate over the returned error that says true only where it is non-nil
+		if cd.Op == token.ILLEGAL && cd.X != nil {
+			if pc, ok := stripConv(cd.X).(*ssa.Call); ok {
+				if g := pc.Common().StaticCallee(); g != nil && m.inPkg(g) && len(g.Blocks) > 0 {
+					for pi, a := range pc.Common().Args {
+						if stripConv(a) == errV && pi < len(g.Params) && behind(iff, cd.succWhen(true)) && m.trueOnlyWhereNonNil(g, g.Params[pi]) {
+							return true
+						}
+					}
+				}
+			}
+		}
+		ex, ok := errV.(*ssa.Extract)
+		if !ok {
+			continue
+		}
+		call, ok := ex.Tuple.(*ssa.Call)
+		if !ok {
+			continue
+		}
+		f := call.Common().StaticCallee()
+		if f == nil || !m.inPkg(f) || len(f.Blocks) == 0 {
+			continue
+		}
+		// (2) another result of the same call found nil / found false (true)
+		var rx *ssa.Extract
+		wantNil, badBool := false, false
+		if eq, ok := cd.equalEdge(); ok {
+			var x ssa.Value
+			if isNilConst(cd.Y) {
+				x = stripConv(cd.X)
+			} else if isNilConst(cd.X) {
+				x = stripConv(cd.Y)
+			}
+			if e2, ok := x.(*ssa.Extract); ok && e2.Tuple == ssa.Value(call) && e2.Index != ex.Index && behind(iff, eq) {
+				rx, wantNil = e2, true
+			}
+		} else if cd.Op == token.ILLEGAL && cd.X != nil {
+			if e2, ok := stripConv(cd.X).(*ssa.Extract); ok && e2.Tuple == ssa.Value(call) && e2.Index != ex.Index {
+				if behind(iff, cd.succWhen(true)) {
+					rx, badBool = e2, true
+				} else if behind(iff, cd.succWhen(false)) {
+					rx, badBool = e2, false
+				}
+			}
+		}
+		if rx == nil {
+			continue
+		}
+		good := true
+		for _, r2 := range returnsOf(f) {
+			if rx.Index >= len(r2.Results) || m.returnFails(r2, depth+1) {
+				continue
+			}
+			if wantNil {
+				if !m.provablyNonNil(r2.Results[rx.Index], r2.Block(), call, 0) {
+					good = false
+				}
+			} else {
+				k, ok := stripConv(r2.Results[rx.Index]).(*ssa.Const)
+				if !ok || k.Value == nil || k.Value.Kind() != constant.Bool || constant.BoolVal(k.Value) == badBool {
+					good = false
+				}
+			}
+		}
+		if good {
+			return true
+		}
+	}
+	return false
+}
+
+// trueOnlyWhereNonNil: the boolean function g can return true only on paths on which its
+// parameter p was compared with nil and found non-nil.
+func (m *Model) trueOnlyWhereNonNil(g *ssa.Function, p *ssa.Parameter) bool {
+	c := newCut()
+	for _, iff := range allIfs(g) {
+		cd := condOf(iff)
+		eq, ok := cd.equalEdge()
+		if !ok {
+			continue
+		}
+		if isNilConst(cd.Y) && stripConv(cd.X) == ssa.Value(p) || isNilConst(cd.X) && stripConv(cd.Y) == ssa.Value(p) {
+			for _, s := range iff.Block().Succs {
+				if s != eq {
+					c.cutEdge(iff.Block(), s)
+				}
+			}
+		}
+	}
+	if len(c.edges) == 0 {
+		return false
+	}
+	reach := entryReach(g, c)
+	for _, ret := range returnsOf(g) {
+		if !reach[ret.Block().Index] || len(ret.Results) != 1 {
+			continue
+		}
+		k, ok := stripConv(ret.Results[0]).(*ssa.Const)
+		if !ok || k.Value == nil || k.Value.Kind() != constant.Bool || constant.BoolVal(k.Value) {
+			return false
+		}
+	}
+	return true
+}
+
+// provablyNonNil: v, as seen at the end of block `at`, is not nil: a fresh interface value, a
+// value that was compared with nil on the way, or (for a parameter of the function `call`
+// invokes) an argument of that call for which the same holds.
+func (m *Model) provablyNonNil(v ssa.Value, at *ssa.BasicBlock, call *ssa.Call, depth int) bool {
+	return m.provablyNonNilOn(v, at, nil, call, depth)
+}
+
+// (to: when set, the value is used on the edge at -> to only)
+func (m *Model) provablyNonNilOn(v ssa.Value, at, to *ssa.BasicBlock, call *ssa.Call, depth int) bool {
+	if depth > 6 {
+		return false
+	}
+	for {
+		if ci, ok := v.(*ssa.ChangeInterface); ok {
+			v = ci.X
+			continue
+		}
+		break
+	}
+	switch x := v.(type) {
+	case *ssa.MakeInterface, *ssa.Alloc, *ssa.MakeMap, *ssa.MakeSlice, *ssa.MakeClosure:
+		return true
+	case *ssa.Const:
+		return x.Value != nil
+	case *ssa.Phi:
+		for i, e := range x.Edges {
+			if !m.provablyNonNilOn(e, x.Block().Preds[i], x.Block(), call, depth+1) {
+				return false
+			}
+		}
+		return true
+	case *ssa.Parameter:
+		if call == nil || call.Common().StaticCallee() != x.Parent() {
+			return false
+		}
+		for i, p := range x.Parent().Params {
+			if p == x && i < len(call.Common().Args) {
+				return m.provablyNonNil(call.Common().Args[i], call.Block(), nil, depth+1)
+			}
+		}
+		return false
+	}
+	if v.Parent() == nil {
+		return false
+	}
+	for _, iff := range allIfs(v.Parent()) {
+		cd := condOf(iff)
+		eq, ok := cd.equalEdge()
+		if !ok {
+			continue
+		}
+		if !(isNilConst(cd.Y) && stripConv(cd.X) == v || isNilConst(cd.X) && stripConv(cd.Y) == v) {
+			continue
+		}
+		for _, s := range iff.Block().Succs {
+			if s != eq && len(s.Preds) == 1 && (s == at || s.Dominates(at)) {
+				return true
+			}
+			if s != eq && iff.Block() == at && s == to {
+				return true
+			}
+		}
+	}
+	return false
+}
+
+// fieldOfHelperRowIsCas: fa addresses field f of a local struct variable whose only value is
+// the struct a package helper returned, and inside that helper field f of the returned struct
+// is filled by a Scan from documents.cas through the transaction handle.
+func (m *Model) fieldOfHelperRowIsCas(fa *ssa.FieldAddr) (bool, string) {
+	al, ok := fa.X.(*ssa.Alloc)
+	if !ok {
+		return false, ""
+	}
+	st := singleStore(al)
+	if st == nil {
+		return false, ""
+	}
+	src := stripConv(st.Val)
+	idx := 0
+	if ex, ok := src.(*ssa.Extract); ok {
+		src, idx = ex.Tuple, ex.Index
+	}
+	call, ok := src.(*ssa.Call)
+	if !ok {
+		return false, ""
+	}
+	h := call.Common().StaticCallee()
+	if h == nil || !m.inPkg(h) || len(h.Blocks) == 0 {
+		return false, ""
+	}
+	f := fieldOf(fa)
+	// the struct the helper returns: one local (or named result) on every non-failing return
+	var row *ssa.Alloc
+	for _, ret := range returnsOf(h) {
+		if idx >= len(ret.Results) {
+			return false, ""
+		}
+		ld, ok := stripConv(ret.Results[idx]).(*ssa.UnOp)
+		if !ok || ld.Op != token.MUL {
+			if m.isFailureReturn(ret) || m.mustBeFailureReturn(ret) {
+				continue
+			}
+			return false, ""
+		}
+		ra, ok := ld.X.(*ssa.Alloc)
+		if !ok || row != nil && row != ra {
+			return false, ""
+		}
+		row = ra
+	}
+	if row == nil {
+		return false, ""
+	}
+	for _, sc := range m.scanCalls() {
+		if sc.Fn != h || sc.Site == nil {
+			continue
+		}
+		for i, d := range sc.Dests {
+			dfa, ok := stripConv(d).(*ssa.FieldAddr)
+			if !ok || dfa.X != ssa.Value(row) || fieldOf(dfa) != f {
+				continue
+			}
+			for _, v := range sc.Site.Variants {
+				stmt := v.Stmt()
+				if stmt == nil || stmt.Select == nil || i >= len(stmt.Select.Cols) {
+					continue
+				}
+				if !isCol(stmt.Select.Cols[i].Expr, "cas") || len(stmt.Select.From) != 1 || lower(stmt.Select.From[0].Name) != "documents" {
+					return false, "the compared cell is not filled from documents.cas"
+				}
+				if !onlyClasses(sc.Site, HTxn) {
+					return false, "the current CAS is read outside the transaction (handle " + classList(sc.Site) + ")"
+				}
+				return true, ""
+			}
+		}
+	}
+	return false, ""
 }
